@@ -23,8 +23,38 @@ def run_tests(flt=''):
     return r.stdout
 
 
+def recheck_stored(props):
+    """Re-run all checks on every stored seed and refresh checks_fired in its meta.json."""
+    for d in sorted(glob.glob(os.path.join(ROOT, 'seeded', '*'))):
+        patch = d + '/patch.diff'
+        st = sh('git -C /repo status --porcelain --untracked-files=no').stdout.strip()
+        if st:
+            print('/repo not clean'); return
+        fired, broken, details = [], [], {}
+        try:
+            if sh('git -C /repo apply %s' % patch).returncode:
+                print(os.path.basename(d), 'patch does not apply'); continue
+            for p in props:
+                r = sh('%s/check %s' % (ROOT, p))
+                if r.returncode == 1:
+                    fired.append(p)
+                    details[p] = [l.strip() for l in r.stdout.splitlines() if l.startswith('  instance')][:4]
+                elif r.returncode != 0:
+                    broken.append(p)
+        finally:
+            sh('git -C /repo checkout -- . && git -C /repo clean -qfd src')
+        mj = json.load(open(d + '/meta.json'))
+        mj.update({'checks_fired': fired, 'checks_broken': broken, 'fired_instances': details})
+        json.dump(mj, open(d + '/meta.json', 'w'), indent=1)
+        own = mj.get('property') in fired
+        print('%-8s breaks %s  fired=%s%s %s' % (os.path.basename(d), mj.get('property'), fired, ' broken=%s' % broken if broken else '', '' if own else '   <-- own property NOT fired'))
+
+
 def main():
     props = [c['property_id'] for c in json.load(open(os.path.join(ROOT, 'MANIFEST.json')))['checks']]
+    if sys.argv[1:] == ['--stored']:
+        recheck_stored(props)
+        return
     for pid in sys.argv[1:]:
         out = '/tmp/seed/%s/out' % pid
         for patch in sorted(glob.glob(out + '/patch*.diff')):
